@@ -128,3 +128,22 @@ func VerifC03UnrotatedBloom(blocks []map[string]VerifC03Cmi, cols []string, keys
 	}
 	return res
 }
+
+// VerifC03Windows: for the segstore handed to hooks.GlobalHooks.AfterWritingToSegment, what
+// getLastRecord() returns for every column of the open block right after a record was written
+// (this is the slice the ingest-time persistent-query evaluator of segstream.go looks at).
+func VerifC03Windows(segstore interface{}) map[string][]byte {
+	ss, ok := segstore.(*SegStore)
+	if !ok || ss == nil {
+		return nil
+	}
+	out := map[string][]byte{}
+	for name, cw := range ss.wipBlock.colWips {
+		if cw == nil || cw.cstartidx > cw.cbufidx {
+			out[name] = []byte{0xff, 0xff, 0xff}
+			continue
+		}
+		out[name] = append([]byte{}, cw.getLastRecord()...)
+	}
+	return out
+}
